@@ -625,7 +625,8 @@ def take(outname, inname, chunks, index, axis=0):
             }
             return tuple(chunks), graph
 
-        average_chunk_size = int(full_length / len(chunks[axis]))
+        # (at least 1: with zero-size chunks there can be more chunks than elements)
+        average_chunk_size = max(int(full_length / len(chunks[axis])), 1)
 
         indexer = []
         index = asarray_safe(index, like=index)
